@@ -4,7 +4,7 @@
 plan = {config: {mode, ctor: [entry...]}, ops: [{op:'add', entry, index} | {op:'req', path, method} | {op:'sweep'}]}
 entry = {pattern, methods, out, tag}
 """
-from clastic import Application, Route
+from clastic import Application, Route, Response
 
 from sim.core.base import Check, RunResult, Streams, InvalidPlan, canon
 from sim.core.gateway import make_environ, call_app
@@ -42,6 +42,26 @@ def make_route(e, shared=None):
     return Route(e['pattern'], endpoint_for(e, shared), methods=ms)
 
 
+_FRONT = []
+
+
+def front_app():
+    """Another application of the same server: every request ends in an error there, after method-restricted routes
+    were rejected and non-breaking errors were recorded."""
+    if not _FRONT:
+        from clastic.errors import Forbidden, NotFound
+
+        def nb403(**kw):
+            raise Forbidden(is_breaking=False)
+
+        def nb404(**kw):
+            return NotFound(is_breaking=False)
+        _FRONT.append(Application([Route('/<rest*>', lambda rest: Response('never'), methods=['TRACE', 'CONNECT']),
+                                   Route('/a', lambda: Response('never'), methods=['PATCH']),
+                                   Route('/<x>', nb403), Route('/<x>/<y>', nb403), Route('/<rest*>', nb404)]))
+    return _FRONT[0]
+
+
 class C06(Check):
     id = 'C06'
     world = 'routing-table'
@@ -65,7 +85,7 @@ class C06(Check):
     level_text = ('Seeded search over table-building histories interleaved with request streams; per table the full '
                   'paths x methods catalogue is swept at least once. The table/history space is sampled.')
     level_note = 'Trusted: the sequential dispatch model (~40 lines) and the catalogue match relation.'
-    required_probes = ('debug-application', 'concurrent-requests', 'add-concurrent-with-request', '405-with-allow', 'fallthrough-then-later-route', 'fallthrough-last-error-wins', 'add-at-index', 'add-at-index-below-range', 'add-at-negative-index',
+    required_probes = ('environ-seen-by-another-application-first', 'debug-application', 'concurrent-requests', 'add-concurrent-with-request', '405-with-allow', 'fallthrough-then-later-route', 'fallthrough-last-error-wins', 'add-at-index', 'add-at-index-below-range', 'add-at-negative-index',
                        'head-on-get-route', 'lowercase-method', 'redirect-302', 'strict-mode')
 
     def gen_entry(self, rng, mode, k):
@@ -125,6 +145,8 @@ class C06(Check):
                             'preempts': sorted([sch.randint(1, hi), sch.choice(['demote'] + names)] for _ in range(sch.randint(1, 6)))})
             else:
                 ops.append({'op': 'req', 'path': rng.choice(R.PATHS), 'method': rng.choice(R.METHODS)})
+                if rng.random() < 0.15:
+                    ops[-1]['cascade'] = True
         ops.append({'op': 'sweep'})
         accepts = [c.choice([None, None, 'text/html', 'application/json', 'application/xml', '*/*', 'text/plain']) for _ in range(c.randint(1, 5))]
         return {'world': 'routing-table', 'seed': seed,
@@ -155,9 +177,15 @@ class C06(Check):
             a = accepts[(k if isinstance(k, int) else 0) % len(accepts)]
             return make_environ(method, path, headers={'Accept': a} if a else {})
 
-        def one(path, method, step):
+        def one(path, method, step, cascade=False):
             exp = R.dispatch_model(table, path, method)
-            ex = call_app(app, env_for(method, path, step), validate=False)
+            env = env_for(method, path, step)
+            if cascade:
+                # the server tries another application first (a cascade: "next one while the answer is 404/405") and hands
+                # the SAME environ dict on: what that application found out about the request is its own business
+                call_app(front_app(), env, validate=False)
+                res.probe('environ-seen-by-another-application-first')
+            ex = call_app(app, env, validate=False)
             got = R.observe(ex)
             bad = R.compare(exp, got)
             shape = self.shape(exp, table, path, method)
@@ -276,7 +304,7 @@ class C06(Check):
                                 % (step, idx, pats, [t['pattern'] for t in table]), step)
                     break
             elif op['op'] == 'req':
-                got = one(op['path'], op['method'], step)
+                got = one(op['path'], op['method'], step, cascade=bool(op.get('cascade')))
                 if got is False:
                     break
                 res.ev(step, 'req', op['method'], op['path'], got['status'], got['tag'])
@@ -288,7 +316,7 @@ class C06(Check):
                     # the closing sweep asks every path with every method, the ones in between with a rotating third
                     for method in (R.METHODS if last else R.METHODS[(pi + step) % 3::3]):
                         n += 1
-                        if one(path, method, step) is False:
+                        if one(path, method, step, cascade=(n % 7 == 0)) is False:
                             ok = False
                             break
                     if not ok:
